@@ -148,6 +148,34 @@ CHECKS["C08"] = dict(
     ref="5 (C08)",
 )
 
+CHECKS["C10"] = dict(
+    category="fault_enumeration",
+    technique="single-fault injection at every stream-call index (reader: read/seek errors; muxer: write/seek errors and zero-length writes); 1-byte / random short transfers and Interrupted injection compared with the plain run",
+    text=("For each explored file and muxing history the fault-free run counts the K stream calls and the run is repeated for every k < K with "
+          "exactly one fault, so the enumeration of fault points is complete per subject. The call in progress must return Error::IoError. Short "
+          "transfers and interrupted calls must leave the full observation transcript (reader) or the output bytes (muxer) unchanged."),
+    note="One fault per run. Subjects are the valid seed corpus and generated histories; completeness is per subject, subjects are sampled.",
+    ref="5 (C10)",
+)
+CHECKS["C11"] = dict(
+    category="fault_enumeration",
+    technique="every cut position of every corpus file; prefix results compared with the library's own answers on the complete file",
+    text=("Every proper prefix (all cut positions; strided inside large media data in the quick tier only) of about 50 valid files in every layout is "
+          "opened with its own length under a stream budget; when it opens, every sample of the complete file is read and must be an error/absence or "
+          "equal in bytes and timing to the complete file's sample."),
+    note="Metamorphic reference: the complete file read by the same library. Sync flags not compared.",
+    ref="5 (C11), 8.3",
+)
+CHECKS["C15"] = dict(
+    category="exploration",
+    technique="random call schedules on one long-lived reader versus single calls on fresh readers; repeated muxing in-process and in a separate process; double open",
+    text=("Schedules of 200-2000 mixed calls, including failing ones on damaged files, are replayed on one reader and each result compared with a "
+          "fresh reader asked once; muxing histories are repeated in the same and in another process and outputs compared; each subject is opened twice "
+          "and the parsed structures compared."),
+    note="The fresh-reader answer is the reference; its correctness is decided by C03/C09.",
+    ref="5 (C15)",
+)
+
 PENDING_REASON = "monitor not yet registered in this commit (implementation in progress, see DESIGN.md section 11); not claimed until its check is silent on the unchanged tree"
 
 def mk():
